@@ -18,3 +18,22 @@ struct JournalVersion {
     major: u32,
     minor: u32,
 }
+
+/// Verification hooks (cargo feature `verif`): the private `prune_journal` and
+/// `streaming_process`, exported unchanged.
+#[cfg(feature = "verif")]
+pub mod verif {
+    use super::{JournalReader, JournalWriter};
+    use tako::{JobId, Set, WorkerId};
+
+    pub fn prune_journal(
+        reader: &mut JournalReader,
+        writer: &mut JournalWriter,
+        live_job_ids: &Set<JobId>,
+        live_worker_ids: &Set<WorkerId>,
+    ) -> crate::Result<()> {
+        super::prune::prune_journal(reader, writer, live_job_ids, live_worker_ids)
+    }
+
+    pub use super::stream::verif::streaming_process;
+}
